@@ -23,3 +23,11 @@ package shared
 //@   ensures fp.isInf(y) && !fp.isNaN(x) && !fp.isZero(x) && !fp.eq(fp.abs(x), 1.0) ==>
 //@           same(result, (fp.gt(fp.abs(x), 1.0) == fp.isPos(y)) ? fp.inf() : 0.0)
 //@   ensures fp.isInf(y) && fp.isZero(x) ==> same(result, fp.isPos(y) ? 0.0 : fp.inf())
+
+// strings.IndexByte: index of the first occurrence, or -1
+//@ func strings.IndexByte
+//@   trusted
+//@   opt pure
+//@   ensures result == -1 || (0 <= result && result < len(s) && s[result] == c)
+//@   ensures result == -1 ==> (forall k int :: 0 <= k && k < len(s) ==> s[k] != c)
+//@   ensures result >= 0 ==> (forall k int :: 0 <= k && k < result ==> s[k] != c)
